@@ -433,16 +433,21 @@ def spread_heavy(cases, weight=lambda c: len(c.line)):
 
 
 def shrink_bytes(data):
-    """Candidates for delta debugging over a byte string."""
+    """Candidates for delta debugging over a byte string: remove a half, a quarter, an eighth, ...; for long
+    inputs only the coarse cuts (each evaluation runs the extracted model), for short ones down to single
+    bytes, then replace bytes by a common letter."""
     n = len(data)
     k = n // 2
-    while k >= 1:
+    levels = 0
+    while k >= 1 and (n <= 256 or levels < 3):
         for i in range(0, n, k):
             yield data[:i] + data[i + k:]
         k //= 2
-    for i in range(min(n, 64)):
-        if data[i] != 0x61:
-            yield data[:i] + b"a" + data[i + 1:]
+        levels += 1
+    if n <= 64:
+        for i in range(n):
+            if data[i] != 0x61:
+                yield data[:i] + b"a" + data[i + 1:]
 
 
 def ceil_div(a, b):
@@ -453,6 +458,10 @@ class LZCheckMixin:
     """agree(): cases flagged 0 are not run through the model; lz13c cases flagged 1 are compared with the
     three wrapper length bytes masked; a difference in those bytes alone (flag 2) is counted, not a violation."""
     wrapper_diffs = 0
+    shrink_budget = 60            # every evaluation runs the extracted list model: keep the failure path short
+    kdiff_cases = 3
+    kdiff_neighbours = 8
+    kdiff_smallest_first = True
 
     def agree(self, case, impl_out, model_out, profile):
         parts = case.line.split(" ")
